@@ -61,6 +61,12 @@ P == CASE Profile = "c04q" ->
             [slots |-> <<<<"inc", "h.h">>, <<"inc", "g.h">>>>,
              bodies |-> {"once", "guard", "testX", "defX", "undefX", "indX"}, stmts |-> {"qh", "qg", "testX", "valX", "defX", "inch", "indX"},
              maxmain |-> 2, nmains |-> 2, idirs |-> {<<Iu("inc")>>}, forced |-> {<<>>}, nents |-> 2, plats |-> <<"p1", "p2">>]
+      [] Profile = "c08s" ->
+            \* the same header name beside the includers and in a -I directory, included in BOTH forms by two
+            \* translation units of one or two platforms: small enough to enumerate every scenario
+            [slots |-> <<<<"src", "h.h">>, <<"inc", "h.h">>>>,
+             bodies |-> {"def"}, stmts |-> {"qh", "ah"}, maxmain |-> 1, nmains |-> 2,
+             idirs |-> {<<Iu("inc")>>}, forced |-> {<<>>}, nents |-> 2, plats |-> <<"p1", "p2">>]
       [] Profile = "c08m" ->
             [slots |-> <<<<"inc", "h.h">>, <<"inc", "g.h">>>>,
              bodies |-> {"once", "guard", "testX", "defX", "undefX"}, stmts |-> {"qh", "qg", "testX", "defX"},
@@ -101,7 +107,7 @@ HdrChoices == CASE Profile = "c18" -> {"U", "q:h.h", "a:g.h", "q:nope.h"}
                 [] OTHER -> {"U"}
 
 \* the value -DX gets: the same NAME may be defined to different values by the commands of one platform
-XChoices == IF Profile \in {"sim", "c08q"} THEN {"U", "1", "0"} ELSE {"U", "1"}
+XChoices == IF Profile \in {"sim", "c08q"} THEN {"U", "1", "0"} ELSE IF Profile = "c08s" THEN {"U"} ELSE {"U", "1"}
 
 Slots == P.slots
 Bodies == P.bodies
